@@ -800,7 +800,6 @@ func (x *ckExec) ckDest() *level.Chunk {
 	return d
 }
 
-
 // counter runs a long random SetBlock history on one section (of the current chunk, or of a chunk obtained from it
 // through the network or the save form) and records, per batch, what GetBlock returned before every call, what was
 // written, the counter and the scanned number of non-air blocks.
